@@ -89,11 +89,13 @@ def sci (x : Float) : String :=
   let m := x / (10.0 : Float).pow e
   s!"{(m * 1000.0).round / 1000.0}e{e.toInt64}"
 
-/-- longitudes are compared as angles (mod 360) on the ground: 3e-12 rad of arc, i.e. scaled by 1/cos(lat) -/
+/-- longitudes are compared exactly (NOT mod 360, except +180 against -180) on the ground: 3e-12 rad of arc, i.e. scaled by 1/cos(lat) -/
 def closePt (geographic : Bool) (impl model : Float × Float) : Bool :=
   if geographic then
     let c := max 0.01 ((model.2 * Spec.pi / 180.0).cos)
-    Spec.lonDist impl.1 model.1 * c ≤ 1.72e-10 && closeDeg impl.2 model.2
+    let anti := impl.1.abs ≥ 180.0 - 1.0e-9 && model.1.abs ≥ 180.0 - 1.0e-9   -- +180 vs -180
+    let dl := if anti then Spec.lonDist impl.1 model.1 else (impl.1 - model.1).abs
+    dl * c ≤ 1.72e-10 && closeDeg impl.2 model.2
   else closeM impl.1 model.1 && closeM impl.2 model.2
 
 def showRes : Except Err (Float × Float) → String
@@ -108,47 +110,52 @@ def legDiff (geographic : Bool) (m : Except Err (Float × Float)) (impl : Float 
   | .ok v, false => some s!"impl=err model=({v.1},{v.2})"
   | .error e, true => some s!"impl=({impl.1},{impl.2}) model=err:{e.tag}"
 
-inductive V where
-  | ok (wrapped : Bool)
-  | diff (why : String)
-  | spec (why : String)
+/-- verdict on one position: the Spec's (`none` = holds; the Bool says whether the violation is
+explained by a recorded finding) and the correspondence's (`none` = model and code agree) -/
+structure V where
+  spec : Option (String × Bool)
+  diff : Option String
+  wrapped : Bool
 
 def judgeTrip (a b : SR Float) (nilAB nilBA : Bool) (t : Trip) (errs : String) : V :=
   let geoB := b.name == .longlat
   let u := unitOf geoB b.toMeter b.a t.p.2
+  -- correspondence: the Float model on the same inputs, leg by leg
+  let m1 := if nilAB then .ok t.p else transformF a b t.p.1 t.p.2
+  let m2 := if nilBA || !t.ok1 then .ok t.p2 else transformF b a t.q.1 t.q.2
+  let m3 := if nilAB || !t.ok2 then .ok t.q2 else transformF a b t.p2.1 t.p2.2
+  let diff : Option String :=
+    match legDiff geoB m1 t.q t.ok1, legDiff true m2 t.p2 (t.ok2 || !t.ok1), legDiff geoB m3 t.q2 (t.ok3 || !t.ok2) with
+    | some w, _, _ => some ("leg1 " ++ w)
+    | _, some w, _ => some ("leg2 " ++ w)
+    | _, _, some w => some ("leg3 " ++ w)
+    | none, none, none => none
   -- Spec verdict on the implementation's answer
-  if !noError t then V.spec s!"error-reported {if errs == "" then "nan-without-error" else errs} p=({t.p.1},{t.p.2})"
-  else
-    let rt := route a b
-    let lossy := rt == "shift" || rt == "hop" || rt == "hopnone"
-    let w : Datum Float := (wgs84SR : SR Float).datum
-    let da := if a.datum.dtype = pjdNoDatum then w else a.datum
-    let db := if b.datum.dtype = pjdNoDatum then w else b.datum
-    -- through the WGS84 workaround the height is dropped at WGS84, between the hops
-    let bound := if rt == "shift" then heightLossBound da db else heightLossBound da w + heightLossBound w db
-    let coslat := max 1.0e-3 ((t.p.2 * pi / 180.0).cos)
-    -- displacement p -> p2 on the ground, in metres
-    let ground := 111200.0 * (max (dLon t * coslat) (dLat t)) * 1.5
-    -- same 7-parameter datum on both sides through the WGS84 hop: geocentric_from_wgs84 is the
-    -- small-angle inverse of geocentric_to_wgs84 (as in PROJ.4/proj4js), off by R·|θ|² on the ground
-    let rotSum (d : Datum Float) : Float := d.p3.abs + d.p4.abs + d.p5.abs
-    let helmert := rt == "hopsame" && a.datum.dtype = pjd7Param && ground ≤ 6.4e6 * rotSum a.datum * rotSum a.datum * 2.0 + 1.0e-4
-    let explained : String :=
-      if lossy && ground ≤ bound then "height-lost-2D" else if helmert then "helmert-small-angle" else "unexplained"
-    if !angleOK t then
-      V.spec s!"angle-off {explained} dlon={dLon t} dlat={dLat t} p=({t.p.1},{t.p.2}) p2=({t.p2.1},{t.p2.2})"
-    else if !metresOK u t then
-      V.spec s!"metres-off {explained} d={dMetres u t} p=({t.p.1},{t.p.2}) q=({t.q.1},{t.q.2}) q2=({t.q2.1},{t.q2.2})"
+  let spec : Option (String × Bool) :=
+    if !noError t then some (s!"error-reported {if errs == "" then "nan-without-error" else errs} p=({t.p.1},{t.p.2})", false)
     else
-      -- correspondence: the Float model on the same inputs, leg by leg
-      let m1 := if nilAB then .ok t.p else transformF a b t.p.1 t.p.2
-      let m2 := if nilBA then .ok t.q else transformF b a t.q.1 t.q.2
-      let m3 := if nilAB then .ok t.p2 else transformF a b t.p2.1 t.p2.2
-      match legDiff geoB m1 t.q t.ok1, legDiff true m2 t.p2 t.ok2, legDiff geoB m3 t.q2 t.ok3 with
-      | some w, _, _ => V.diff ("leg1 " ++ w)
-      | _, some w, _ => V.diff ("leg2 " ++ w)
-      | _, _, some w => V.diff ("leg3 " ++ w)
-      | none, none, none => V.ok ((t.p.1 - t.p2.1).abs > 180.0)
+      let rt := route a b
+      let lossy := rt == "shift" || rt == "hop" || rt == "hopnone"
+      let w : Datum Float := (wgs84SR : SR Float).datum
+      let da := if a.datum.dtype = pjdNoDatum then w else a.datum
+      let db := if b.datum.dtype = pjdNoDatum then w else b.datum
+      let bound := heightLossBound da db
+      let coslat := max 1.0e-3 ((t.p.2 * pi / 180.0).cos)
+      -- displacement p -> p2 on the ground, in metres
+      let ground := 111200.0 * (max (dLon t * coslat) (dLat t)) * 1.5
+      -- same 7-parameter datum on both sides through the WGS84 hop: geocentric_from_wgs84 is the
+      -- small-angle inverse of geocentric_to_wgs84 (as in PROJ.4/proj4js), off by R·|θ|² on the ground
+      let rotSum (d : Datum Float) : Float := d.p3.abs + d.p4.abs + d.p5.abs
+      let helmert := rt == "hopsame" && a.datum.dtype = pjd7Param && ground ≤ 6.4e6 * rotSum a.datum * rotSum a.datum * 2.0 + 1.0e-4
+      let (explained, known) : String × Bool :=
+        if lossy && ground ≤ bound then ("height-lost-2D", true) else if helmert then ("helmert-small-angle", true)
+        else ("unexplained", false)
+      if !angleOK t then
+        some (s!"angle-off {explained} dlon={dLon t} dlat={dLat t} p=({t.p.1},{t.p.2}) p2=({t.p2.1},{t.p2.2})", known)
+      else if !metresOK u t then
+        some (s!"metres-off {explained} d={dMetres u t} p=({t.p.1},{t.p.2}) q=({t.q.1},{t.q.2}) q2=({t.q2.1},{t.q2.2})", known)
+      else none
+  ⟨spec, diff, (t.p.1 - t.p2.1).abs > 180.0⟩
 
 /-- the model's WGS84 record must be what `proj.Parse("+proj=longlat +datum=WGS84")` derives -/
 def wgsCheck (a : SR Float) (adef : String) : Option String :=
@@ -178,17 +185,18 @@ def judgeLine (line : String) : String :=
             | none => "BAD trips"
             | some ts =>
               let vs := ts.map fun (t, e) => judgeTrip a b (nab == "1") (nba == "1") t e
-              let specs := vs.filterMap fun | V.spec w => some w | _ => none
-              let diffs := vs.filterMap fun | V.diff w => some w | _ => none
-              -- an unexplained violation outranks an explained one
-              let unexpl := specs.filter fun w => !((w.splitOn "height-lost-2D").length > 1 || (w.splitOn "helmert-small-angle").length > 1)
-              match unexpl, specs, diffs, wgsCheck a adef with
+              let unexpl := vs.filterMap fun v => match v.spec with | some (w, false) => some w | _ => none
+              let expl := vs.filterMap fun v => match v.spec with | some (w, true) => some w | _ => none
+              let diffs := vs.filterMap fun v => v.diff
+              -- an unexplained violation outranks a correspondence difference, which outranks a
+              -- violation that a recorded finding explains (so that a finding never hides a change)
+              match unexpl, diffs, expl, wgsCheck a adef with
               | w :: _, _, _, _ => s!"SPEC {cls} {w}"
-              | [], w :: _, _, _ => s!"SPEC {cls} {w}"
-              | [], [], w :: _, _ => s!"DIFF {cls} {w}"
+              | [], w :: _, _, _ => s!"DIFF {cls} {w}"
+              | [], [], w :: _, _ => s!"SPEC {cls} {w}"
               | [], [], [], some w => s!"DIFF {cls} {w}"
               | [], [], [], none =>
-                let wr := vs.any fun | V.ok true => true | _ => false
+                let wr := vs.any fun v => v.wrapped
                 s!"OK {cls}{if wr then "-wrapped" else ""}"
         | _ => "BAD dump-B"
       | _ => "BAD dump-A"
